@@ -160,7 +160,7 @@ struct SharedEngine {
 fn run_program(ops: &[TOp], shared: &[SharedEngine], env: &mut Env, simulated: bool) -> ThreadOut {
     let mut sim = Sim::new(Prop::C03, env);
     for (i, s) in shared.iter().enumerate() {
-        sim.engines[i] = Some(EngineSlot { eng: Eng::Shared(s.arc.clone()), vs_id: s.vs_id.clone(), voices: s.voices.clone(), model: s.model.clone(), twin: None, heavy: s.heavy });
+        sim.engines[i] = Some(EngineSlot { eng: Eng::Shared(s.arc.clone()), vs_id: s.vs_id.clone(), voices: s.voices.clone(), model: s.model.clone(), twin: None, heavy: s.heavy, private_arcs: Vec::new() });
     }
     let before: u64 = SITE_COUNTS.with(|c| c.borrow().iter().sum());
     let mut violation = None;
